@@ -245,6 +245,11 @@ def assignments(atoms, N, with_unordered=False):
             groups.setdefault(g, []).append((a, fwd, d.n.is_zero()))
             if _simple_operand(a[1]) and _simple_operand(a[2]) and a[1] != a[2]:
                 eqpairs.setdefault(g, tuple(sorted([a[1], a[2]], key=repr)))
+            else:
+                # `n == 0` on an integer: under the outcome `eq` the operand IS that number (not for f64: -0.0 == 0.0)
+                for x_, c_ in ((a[1], a[2]), (a[2], a[1])):
+                    if _simple_operand(x_) and isinstance(c_, tuple) and len(c_) == 3 and c_[0] == "c" and c_[1] == "int":
+                        eqpairs.setdefault(g, (c_, x_))
         else:
             free.append(a)
     gkeys = list(groups)
